@@ -57,6 +57,31 @@ Theorem C14_stats_are_of_members : forall c rv lo hi m b o rows,
   stats_ok (members (c_x c) lo hi (p_dmin p) (p_bsize p)) (p_nbin p) c rows.
 Proof. exact binned_stats_of_members. Qed.
 
+(* The median used above is that of ANY sorted arrangement of the member values (so it does not
+   depend on the sorting algorithm of the model), and the exact-rational columns are the values of
+   the floats (the common-denominator representation changes no value). *)
+Theorem C14_median_well_defined : forall D v s, Forall (dn D) v -> ssorted s -> Permutation s v ->
+  median_q v = if Nat.even (length v) then ((qnth s (Nat.div2 (length v) - 1) + qnth s (Nat.div2 (length v))) / 2)%Q
+               else qnth s (Nat.div2 (length v)).
+Proof. exact median_of_sorted. Qed.
+
+Theorem C14_column_values : forall v k, (k < length v)%nat -> (nth k (qcol v) 0 == f2q (nth k v nan))%Q.
+Proof. exact qcol_value. Qed.
+
+(* The tables that harness/props/c14_translate.py re-reads from esutil/stat/util.py on every run
+   (what each key is assigned in the single-member and several-member branch; sentinel; centre
+   factor) are the model, interpreted. *)
+Theorem C14_tables_are_the_model :
+  (forall a, ublock [a] = map (interp_single a 0%Q) single_u_table)
+  /\ (forall a wa, wblock true [a] [wa] = map (interp_single a wa) single_w_table)
+  /\ (forall a wa, whist_tgt true [a] [wa] = interp_single a wa single_whist)
+  /\ (forall a b t, ublock (a :: b :: t) = map (interp_many (a :: b :: t) []) many_u_table)
+  /\ (forall v w, wblock_many v w = map (interp_many v w) many_w_table)
+  /\ (forall a b t w, whist_tgt true (a :: b :: t) w = interp_many (a :: b :: t) w many_whist)
+  /\ ublock_empty = map (fun _ => TExact sentinel) single_u_table
+  /\ center_factor = 0x1p-1%float.
+Proof. exact tables_are_the_model. Qed.
+
 (* ------------------------------------------------------------------ checkers *)
 (* what the correspondence run evaluates on the real outputs *)
 Theorem C14_binned_check_sound : forall c lo hi dmin bsize nbin es rows,
